@@ -90,6 +90,10 @@ def compRecord (r : Record) : List Verdict × List String :=
   | "unknown" =>
     fin ((UnknownBlock.new (nthN a 0) (unhex (nthS a 1))).map fun m =>
       ⟨some (8 * m.data.length), some (bytesToBits m.data), some [.writeBytesAligned m.data]⟩)
+  | "sinfo" =>
+    fin ((StreamInfo.new (nthN a 0) (nthN a 1) (nthN a 2)).map fun si =>
+      let si := if nthN a 3 > 0 then { si with minBlock := nthN a 3, maxBlock := nthN a 3 } else si
+      ⟨some 272, some si.bits, some si.ops⟩)
   | "streamwrite" =>
     let bytes := unhex (r.get "bytes")
     match Rfc.analyzeRec Md5.md5 bytes with
